@@ -6,9 +6,8 @@ import numpy as np
 
 from harness.core import use_repo, Divergence
 
-FLOAT = [-1.5, float('nan'), 0.5, 2.5]
-INT = [-2, 0, 7, 3]
-TEXT = ['aa', 'b', 'cc', 'aa']
+VALUES = {'plain': {'float': [-1.5, float('nan'), 0.5, 2.5], 'int': [-2, 0, 7, 3], 'text': ['aa', 'b', 'cc', 'aa']},
+          'edge': {'float': [float('inf'), -0.25, float('-inf'), 1e300], 'int': [-1, 32767, -32768, -1], 'text': ['x y', 'a,b', 'Zz', 'nan?']}}
 EXT = {'csv': 'csv', 'fits_table': 'fits', 'votable': 'xml', 'hdf5': 'hdf5', 'gridded_fits': 'fits'}
 LABEL = {'csv': 'Comma-separated table', 'fits_table': 'FITS Table', 'votable': 'VO Table', 'hdf5': 'HDF5', 'gridded_fits': 'FITS (1 component/HDU)'}
 NAMES = {'float': 'colf', 'int': 'coli', 'text': 'colt'}
@@ -40,7 +39,8 @@ def check_one(cfg, exp):
     from glue.core.data_factories import load_data
     from glue.core.state import GlueSerializer, GlueUnSerializer
     shape = (4,) if cfg['shape'] == 'table' else (2, 2)
-    cols = {'float': np.array(FLOAT).reshape(shape), 'int': np.array(INT).reshape(shape), 'text': np.array(TEXT).reshape(shape)}
+    V = VALUES[cfg.get('vals', 'plain')]
+    cols = {'float': np.array(V['float']).reshape(shape), 'int': np.array(V['int']).reshape(shape), 'text': np.array(V['text']).reshape(shape)}
     d = Data(label='src')
     for k in cfg['cols']:
         d.add_component(cols[k], NAMES[k])
@@ -99,17 +99,17 @@ def check_one(cfg, exp):
                     elif k == 'float':
                         if not (float(got[pos]) != float(got[pos])):
                             return ('blank[%s]' % k, 'NaN', str(got[pos]), 'unselected pixel %d' % pos)
-        # a session saved by reference to the file reloads the same values
-        if not isinstance(loaded, list):
-            dc2 = DataCollection([loaded])
-            try:
-                text = GlueSerializer(dc2, include_data=False).dumps()
-                dc3 = GlueUnSerializer.loads(text).object('__main__')
-            except Exception as e:
-                return ('by_reference', 'a restored session', 'raised %s: %s' % (type(e).__name__, str(e)[:200]))
-            if len(dc3) != 1:
-                return ('by_reference_count', 1, len(dc3))
-            a, b = loaded, dc3[0]
+        # a session saved by reference to the file reloads the same values (every dataset the file yields)
+        group = loaded if isinstance(loaded, list) else [loaded]
+        dc2 = DataCollection(group)
+        try:
+            text = GlueSerializer(dc2, include_data=False).dumps()
+            dc3 = GlueUnSerializer.loads(text).object('__main__')
+        except Exception as e:
+            return ('by_reference', 'a restored session', 'raised %s: %s' % (type(e).__name__, str(e)[:200]))
+        if len(dc3) != len(group):
+            return ('by_reference_count', len(group), len(dc3))
+        for a, b in zip(group, dc3):
             if [c.label for c in a.main_components] != [c.label for c in b.main_components]:
                 return ('by_reference_components', [c.label for c in a.main_components], [c.label for c in b.main_components])
             for c in a.main_components:
